@@ -39,12 +39,16 @@ def confirm(wt, sid):
     rc_with, out_with = sh(demo_cmd, cwd=wt, env=env)
     ran.append(("demo with change: " + demo_cmd, "rc=%d %s" % (rc_with, out_with.strip()[-400:])))
     # state: change removed
-    sh("git stash push -q -- src", cwd=wt)
+    # (no `git stash`: the stash is shared by all worktrees of a repository)
+    tmp_patch = os.path.join(wt, "target", "seedtest-current.patch")
+    os.makedirs(os.path.dirname(tmp_patch), exist_ok=True)
+    sh("git diff -- src > %s" % tmp_patch, cwd=wt)
+    sh("git apply -R %s" % tmp_patch, cwd=wt)
     try:
         rc_without, out_without = sh(demo_cmd, cwd=wt, env=env)
         ran.append(("demo without change", "rc=%d %s" % (rc_without, out_without.strip()[-300:])))
     finally:
-        sh("git stash pop -q", cwd=wt)
+        sh("git apply %s" % tmp_patch, cwd=wt)
     ok = ("87 passed" in lib_with) and rc_with != 0 and rc_without == 0
     meta["confirmed"] = ok
     meta["confirmation"] = [{"cmd": c, "outcome": o} for c, o in ran]
